@@ -60,11 +60,12 @@ def pure(shape, cards, wi) -> bool:
     label, cls = WRITERS[wi]
     m = model(shape, cards)
     before = R.snapshot(m)
-    out1 = cls(None, m).transform()
+    w = cls(None, m)
+    out1 = w.transform()
     if R.snapshot(m) != before:
         return False
-    out2 = cls(None, m).transform()
-    out3 = cls(None, m).transform()
+    out2 = w.transform()                  # the same writer object again: no state of the first call survives
+    out3 = cls(None, m).transform()       # and a fresh one
     if R.snapshot(m) != before:
         return False
     return same(out1, out2) and same(out2, out3)
@@ -115,23 +116,28 @@ def returns_what_it_writes(shape, pos, name, wi) -> bool:
     old = mod.__dict__.get('open')
     mod.open = Sink
     try:
-        ret = cls('/virtual/out.file', m).transform()
+        w = cls('/virtual/out.file', m)
+        ret = w.transform()
+        ret2 = w.transform()       # the same writer object writes the file a second time
     finally:
         if had:
             mod.open = old
         else:
             del mod.open
-    if len(Sink.opened) != 1:
+    if len(Sink.opened) != 2:
         return False
-    s = Sink.opened[0]
-    if 'w' not in s.mode:
-        return False
-    if 'b' not in s.mode:
-        if s.encoding is None or s.encoding.lower().replace('-', '') != 'utf8':
+    for s, r in zip(Sink.opened, (ret, ret2)):
+        if 'w' not in s.mode:
             return False
-    if len(s.parts) == 1 and s.parts[0] is ret:
-        return True            # the very object that was returned was written
-    return same(s.content(), ret)
+        if 'b' not in s.mode:
+            if s.encoding is None or s.encoding.lower().replace('-', '') != 'utf8':
+                return False
+        if len(s.parts) == 1 and s.parts[0] is r:
+            continue               # the very object that was returned was written
+        if not same(s.content(), r):
+            return False
+    # full equality of two long symbolic texts does not finish; their lengths are cheap (pure() compares the texts)
+    return type(ret) is type(ret2) and len(ret) == len(ret2)
 
 
 # -- hash-seed independence: set iteration order as an arbitrary permutation -------------------------
